@@ -79,6 +79,7 @@ class C14(Check):
             for buf in c03.BUFFERS:
                 out.append(("stream", w, buf))
         out += [("lookup", i, b["lookup_rows"]) for i in range(len(c18.ALPHA))]
+        out += [("alllen", buf) for buf in (32, 33, 64, 100, 250)]
         return out
 
     # (a)
@@ -210,10 +211,34 @@ class C14(Check):
                     self.one_stream(fi, seqs, w, eol, buf, ll, [r1], ctx)
                     for r2 in rows:
                         self.one_stream(fi, seqs, w, eol, buf, ll, [r1, r2], ctx)
+            # fragment, gap, fragment: every gap length 0..9 against every fill state of the output line
+            for ll in (3, 4):
+                for alen in (1, 2, 3, 4):
+                    for g in range(0, 10):
+                        for last in (("F", "r2", 1, 3, 1), ("F", "r1", 2, 3, -1)):
+                            self.one_stream(fi, seqs, w, eol, buf, ll, [("F", "r1", 1, alen, 1), ("G", g, "scaffold"), last], ctx)
         ctx.sample({"stream": [["F", "r1", 2, 9, -1], ["G", 3, "scaffold"]], "width": w, "buffer": buf})
 
-    def one_stream(self, fi, seqs, w, eol, buf, ll, rows, ctx):
-        case = ["stream", w, eol, buf, ll, [list(r) for r in rows]]
+    def check_all_lengths(self, buf, ctx, only=None):
+        """reverse- and forward-strand fragments of every length 1..300 at buffers of 32 and more (several chunks, every remainder)"""
+        unit = b"ACGTRYKMacgtnNBDHVSWacGT"
+        seq = (unit * 13)[:300]
+        data, _ = fm.make_fasta([("big", seq, 60)], b"\n", True)
+        from tola.fasta.index import FastaIndex, index_fasta_file
+
+        idx, _ = index_fasta_file(fm.MemPath(data), 1000)
+        fi = FastaIndex(fm.MemPath(data), buf)
+        fi.index = idx
+        for ln in range(1, 301):
+            for start in (1, 300 - ln + 1) if ln < 300 else (1,):
+                rows = [("F", "big", start, start + ln - 1, -1)]
+                if only is not None and [list(r) for r in rows] != only:
+                    continue
+                self.one_stream(fi, {"big": seq}, 60, "LF", buf, 60, rows, ctx, kind="alllen")
+        ctx.sample({"all_lengths": "reverse fragments of length 1..300", "buffer": buf})
+
+    def one_stream(self, fi, seqs, w, eol, buf, ll, rows, ctx, kind="stream"):
+        case = [kind, w, eol, buf, ll, [list(r) for r in rows]]
         ctx.cur = case
         ctx.evaluations += 1
         if any(r[0] == "F" for r in rows):
@@ -232,6 +257,8 @@ class C14(Check):
             ctx.violation("stream-reverse-ne-revcomp", case, f"fwd {a!r} rev {b!r} expected {fm.ref_revcomp(a)!r}")
         elif out2.getvalue() != h1 + b"\n" + fm.wrap(fm.ref_revcomp(a), ll):
             ctx.violation("stream-reverse-wrapping", case, f"{out2.getvalue()!r}")
+        elif out1.getvalue() != fm.expected_stream(seqs, [("s", rows)], ll):
+            ctx.violation("stream-ne-construction", case, f"{out1.getvalue()[:200]!r}")
 
     # (d)
     def check_lookup(self, first, k, ctx):
@@ -280,6 +307,8 @@ class C14(Check):
             self.check_stream(shard[1], shard[2], ctx)
         elif kind == "lookup":
             self.check_lookup(shard[1], shard[2], ctx)
+        elif kind == "alllen":
+            self.check_all_lengths(shard[1], ctx)
 
     def replay(self, case, ctx):
         kind = case[0]
@@ -293,6 +322,8 @@ class C14(Check):
             self.check_string((unit * (n // len(unit) + 1))[:n], ctx, label=f"len{n}")
         elif kind == "scaffold":
             self.check_scaffold([tuple(tuple(x) if isinstance(x, list) else x for x in r) for r in case[1][: len(case[1])]], ctx)
+        elif kind == "alllen":
+            self.check_all_lengths(case[3], ctx, only=case[5])
         elif kind == "stream":
             _, w, eol, buf, ll, rows = case
             fi = c03.CHECK.make_index(w, eol, buf)
@@ -308,3 +339,4 @@ CHECK = C14()
 # scope added in later rounds, kept in the evidence text
 CHECK.rule += ' Histories on one object: reverse, append_scaffold (with / without gap) or add a row, reverse again.'
 CHECK.rule += ' Every 1- and 2-byte string over all 256 byte values, and every byte value at the start / middle / end of a longer string.'
+CHECK.rule += ' Fragment-gap-fragment scaffolds with every gap length 0..9 at line lengths 3 and 4; reverse fragments of every length 1..300 at buffers 32, 33, 64, 100, 250; the forward stream is also compared with the construction.'
